@@ -9,7 +9,9 @@ Inductive c13op :=
 | OpTruthTry (l : list Z) | OpBudgetTry (l : list Z)
 | OpTruthNew0 | OpTruthNew1 (f : Z) | OpTruthNew2 (f c : Z)
 | OpBudgetNew0 | OpBudgetNew1 (p : Z) | OpBudgetNew2 (p d : Z) | OpBudgetNew3 (p d q : Z)
-| OpEvident (x : Z) | OpZeroOne.
+| OpEvident (x : Z) | OpZeroOne
+(* values built directly through the public enum variants (no range check): every accessor on whatever is stored *)
+| OpTruthVariant (l : list Z) | OpBudgetVariant (l : list Z).
 
 (* canonical outcome: stored values and the outcome of every accessor *)
 Inductive cout := COk (vals : list Z) (acc : list (res Z)) | CErr | CPanic.
@@ -27,6 +29,23 @@ Definition of_budget (r : res budget) : cout :=
   | RPanic => CPanic
   end.
 
+(* the variant with exactly these components; a list that is no variant is RErr (the harness never sends one) *)
+Definition truth_variant (l : list Z) : res truth :=
+  match l with
+  | [] => ROk TrEmpty
+  | [f] => ROk (TrSingle f)
+  | [f; c] => ROk (TrDouble f c)
+  | _ => RErr
+  end.
+Definition budget_variant (l : list Z) : res budget :=
+  match l with
+  | [] => ROk BuEmpty
+  | [p] => ROk (BuSingle p)
+  | [p; d] => ROk (BuDouble p d)
+  | [p; d; q] => ROk (BuTriple p d q)
+  | _ => RErr
+  end.
+
 Definition run (op : c13op) : cout :=
   match op with
   | OpTruthTry l => of_truth (truth_try_from_floats l)
@@ -40,6 +59,8 @@ Definition run (op : c13op) : cout :=
   | OpBudgetNew3 p d q => of_budget (budget_new_triple p d q)
   | OpEvident x => COk [] [ROk (if en_is_valid x then 1 else 0); en_try_validate x; en_validate x]
   | OpZeroOne => COk [en_zero; en_one] []
+  | OpTruthVariant l => of_truth (truth_variant l)
+  | OpBudgetVariant l => of_budget (budget_variant l)
   end.
 
 Definition res_eqb (a b : res Z) : bool :=
